@@ -45,9 +45,20 @@ Record robs := {
   ro_effect : N;                               (* 0 none, 1 cleared, 2 re-saved *)
   ro_calls : list endpoint }.
 
+(* two or three confirmations (POST) that overlap: request i+1 is sent while the IdP still holds the
+   revoke call of every earlier flight (the driver waits until each request is accounted for: finished,
+   held at the fake IdP, or counted as a duplicate in the single-flight map), then the calls are
+   released in arrival order *)
+Record cobs := {
+  co_secret : str; co_provider : provider; co_clock : Z;
+  co_reqs : list areq;            (* arrival order; q_idp = the answer scripted for THIS session's token *)
+  co_bodies : list (abody * bool);(* per request: observed body, cookie cleared *)
+  co_calls : list str }.          (* tokens that reached the IdP's revoke endpoint, in arrival order *)
+
 Inductive step :=
 | SProxy (o : pobs)
 | SAuth (o : aobs)
+| SConc (o : cobs)
 | SSig (secret uri sig ts : str) (parses : bool) (now : Z) (obs : bool)   (* real validSignature through a shim *)
 | SReuse (o : robs).
 
@@ -189,6 +200,10 @@ Definition acceptance_holds (mac : str -> str -> str) (last : option pobs) (o : 
   | None, _ => true
   end.
 
+Definition grant_of (s : asession) : str * str := (as_access s, as_refresh s).
+Definition grant_eqb (a b : str * str) : bool := str_eqb (fst a) (fst b) && str_eqb (snd a) (snd b).
+Definition mem_grant (g : str * str) (l : list (str * str)) : bool := existsb (grant_eqb g) l.
+
 (* ---- reuse of a saved proxy session ------------------------------------------------------------ *)
 Definition reuse_policy : upolicy :=
   {| u_rules := {| p_addresses := []; p_domains := [star]; p_groups := [] |}; u_preflight := false |}.
@@ -223,41 +238,131 @@ Definition check_due (o : robs) : bool :=
 Definition reuse_holds (revoked : list str) (o : robs) : bool :=
   negb (token_revoked revoked (ro_session o) && idp_revoked_b (ro_answers o) && check_due o) ||
   (negb (ro_served o) && (ro_effect o =? 1)).
+(* the same clause from the user's side: a user whom the authenticator told "signed out" (cookie cleared
+   after a confirmed POST) — any saved copy of a proxy session of that grant is refused once a check is due *)
+Definition reuse_signed_out_holds (signed_out : list (str * str)) (o : robs) : bool :=
+  negb (mem_grant (s_access (ro_session o), s_refresh_tok (ro_session o)) signed_out && check_due o) ||
+  (negb (ro_served o) && (ro_effect o =? 1)).
 (* the driver's world must be consistent: a token revoked at the IdP is reported revoked *)
 Definition reuse_world_ok (revoked : list str) (o : robs) : bool :=
   negb (token_revoked revoked (ro_session o)) || idp_revoked_b (ro_answers o).
 
-(* ---- histories --------------------------------------------------------------------------------- *)
-Record hstate := { h_last : option pobs; h_revoked : list str; h_mismatch : bool; h_holds : bool }.
+(* ---- concurrent confirmations -------------------------------------------------------------- *)
+Definition conc_model (mac : str -> str -> str) (o : cobs) : list aresp :=
+  snd (crun mac (co_secret o) (co_provider o) (map (CReq (co_clock o)) (co_reqs o))).
 
-Definition h_init : hstate := {| h_last := None; h_revoked := []; h_mismatch := false; h_holds := true |}.
+Fixpoint all2 {A B} (f : A -> B -> bool) (a : list A) (b : list B) : bool :=
+  match a, b with
+  | [], [] => true
+  | x :: a', y :: b' => f x y && all2 f a' b'
+  | _, _ => false
+  end.
+
+Definition conc_mismatch (mac : str -> str -> str) (o : cobs) : bool :=
+  let rs := conc_model mac o in
+  negb (all2 (fun (r : aresp) (b : abody * bool) => body_eqb (r_body r) (fst b) && bool_eqb (r_clears r) (snd b))
+                 rs (co_bodies o) &&
+        strs_eqb (flat_map r_revoked rs) (co_calls o)).
+
+Definition session_of (q : areq) : option asession := match q_cookie q with ACSealed s => Some s | _ => None end.
+
+(* the observation of request [q] in the batch, with the IdP call log attributed by token: a call that
+   carried this session's own token counts as the revocation of every POST that presented the session *)
+Definition conc_aobs (o : cobs) (q : areq) (b : abody * bool) : aobs :=
+  {| ao_secret := co_secret o; ao_provider := co_provider o; ao_clock := co_clock o; ao_req := q;
+     ao_link := None; ao_raw := None;
+     ao_resp := {| r_body := fst b; r_clears := snd b;
+                   r_revoked := match session_of q with
+                                | Some s => if is_post (q_method q) && mem_str (revoke_token (co_provider o) s) (co_calls o)
+                                            then [revoke_token (co_provider o) s] else []
+                                | None => []
+                                end |} |}.
+
+(* signature of known finding C19-K1: Okta, an EARLIER request of the batch has the same access token
+   (= single-flight key) and another refresh token (= the token Okta revokes) *)
+Definition k1_signature (p : provider) (earlier : list areq) (q : areq) : bool :=
+  match p, session_of q with
+  | POkta, Some s =>
+      existsb (fun q' => match session_of q' with
+                         | Some s' => str_eqb (as_access s') (as_access s) && negb (str_eqb (as_refresh s') (as_refresh s))
+                         | None => false end) earlier
+  | _, _ => false
+  end.
+
+(* per request: 0 = the clauses hold, 1 = they fail with the signature of K1, 2 = they fail otherwise *)
+Fixpoint conc_verdicts (mac : str -> str -> str) (o : cobs) (earlier : list areq) (qs : list areq) (bs : list (abody * bool)) : list N :=
+  match qs, bs with
+  | q :: qs', b :: bs' =>
+      (if auth_holds mac (conc_aobs o q b) then 0
+       else if k1_signature (co_provider o) earlier q then 1 else 2) :: conc_verdicts mac o (earlier ++ [q]) qs' bs'
+  | _, _ => []
+  end.
+
+(* ---- histories --------------------------------------------------------------------------------- *)
+Record hstate := {
+  h_last : option pobs;
+  h_revoked : list str;               (* IdP: tokens revoked *)
+  h_signed_out : list (str * str);    (* (access, refresh) of sessions whose authenticator cookie a POST response cleared *)
+  h_k1 : list (str * str);            (* of those, the ones attributed to known finding K1 *)
+  h_mismatch : bool; h_holds : bool;  (* h_holds: no UNATTRIBUTED clause failure so far *)
+  h_k1hit : bool }.                   (* some clause failed with the signature of K1 *)
+
+Definition h_init : hstate :=
+  {| h_last := None; h_revoked := []; h_signed_out := []; h_k1 := []; h_mismatch := false; h_holds := true; h_k1hit := false |}.
+
+Definition cleared_grant (q : areq) (clears : bool) : list (str * str) :=
+  match session_of q with Some s => if clears then [grant_of s] else [] | None => [] end.
 
 Definition h_step (mac : str -> str -> str) (h : hstate) (s : step) : hstate :=
   match s with
   | SProxy o =>
-      {| h_last := Some o; h_revoked := h_revoked h;
-         h_mismatch := h_mismatch h || proxy_mismatch mac o; h_holds := h_holds h && proxy_holds mac o |}
+      {| h_last := Some o; h_revoked := h_revoked h; h_signed_out := h_signed_out h; h_k1 := h_k1 h;
+         h_mismatch := h_mismatch h || proxy_mismatch mac o; h_holds := h_holds h && proxy_holds mac o;
+         h_k1hit := h_k1hit h |}
   | SAuth o =>
       (* tokens that reached the IdP's revoke endpoint and were answered "revoked" / "already revoked" *)
       let newly := if revoke_ok (ao_provider o) (q_idp (ao_req o)) then r_revoked (ao_resp o) else [] in
       {| h_last := h_last h; h_revoked := newly ++ h_revoked h;
+         h_signed_out := cleared_grant (ao_req o) (r_clears (ao_resp o)) ++ h_signed_out h; h_k1 := h_k1 h;
          h_mismatch := h_mismatch h || auth_mismatch mac o;
-         h_holds := h_holds h && auth_holds mac o && acceptance_holds mac (h_last h) o |}
+         h_holds := h_holds h && auth_holds mac o && acceptance_holds mac (h_last h) o;
+         h_k1hit := h_k1hit h |}
+  | SConc o =>
+      let p := co_provider o in
+      let vs := conc_verdicts mac o [] (co_reqs o) (co_bodies o) in
+      let tagged := combine (combine (co_reqs o) (co_bodies o)) vs in
+      let newly := flat_map (fun q => match session_of q with
+                                      | Some s0 => if mem_str (revoke_token p s0) (co_calls o) && revoke_ok p (q_idp q)
+                                                   then [revoke_token p s0] else []
+                                      | None => [] end) (co_reqs o) in
+      {| h_last := h_last h; h_revoked := newly ++ h_revoked h;
+         h_signed_out := flat_map (fun t => cleared_grant (fst (fst t)) (snd (snd (fst t)))) tagged ++ h_signed_out h;
+         h_k1 := flat_map (fun t => if snd t =? 1 then cleared_grant (fst (fst t)) (snd (snd (fst t))) else []) tagged ++ h_k1 h;
+         h_mismatch := h_mismatch h || conc_mismatch mac o ||
+                       negb (Nat.eqb (List.length (co_reqs o)) (List.length (co_bodies o)));
+         h_holds := h_holds h && forallb (fun v => negb (v =? 2)) vs;
+         h_k1hit := h_k1hit h || existsb (fun v => v =? 1) vs |}
   | SSig secret uri sg ts parses now obs =>
-      {| h_last := h_last h; h_revoked := h_revoked h;
+      {| h_last := h_last h; h_revoked := h_revoked h; h_signed_out := h_signed_out h; h_k1 := h_k1 h;
          h_mismatch := h_mismatch h || negb (bool_eqb (valid_signature mac secret uri sg ts parses now) obs);
-         h_holds := h_holds h |}
+         h_holds := h_holds h; h_k1hit := h_k1hit h |}
   | SReuse o =>
-      {| h_last := h_last h; h_revoked := h_revoked h;
+      let g := (s_access (ro_session o), s_refresh_tok (ro_session o)) in
+      let so_ok := reuse_signed_out_holds (h_signed_out h) o in
+      let k1 := negb so_ok && mem_grant g (h_k1 h) in
+      {| h_last := h_last h; h_revoked := h_revoked h; h_signed_out := h_signed_out h; h_k1 := h_k1 h;
          h_mismatch := h_mismatch h || reuse_mismatch o || negb (reuse_world_ok (h_revoked h) o);
-         h_holds := h_holds h && reuse_holds (h_revoked h) o |}
+         h_holds := h_holds h && reuse_holds (h_revoked h) o && (so_ok || k1);
+         h_k1hit := h_k1hit h || k1 |}
   end.
 
 Definition h_run (mac : str -> str -> str) (steps : list step) : hstate := fold_left (h_step mac) steps h_init.
 
 Definition judge (c : case) : N :=
   match c with
-  | CH tab steps => let h := h_run (mac_of tab) steps in code (h_mismatch h) (h_holds h) 0
+  | CH tab steps =>
+      let h := h_run (mac_of tab) steps in
+      code (h_mismatch h) (h_holds h && negb (h_k1hit h)) (if h_holds h && h_k1hit h then 1 else 0)
   end.
 
 (* class = which kinds of events the history contains (bit mask) *)
@@ -270,6 +375,7 @@ Definition step_class (revoked_any : bool) (s : step) : N :=
       | BPage st _ _ _ _ => if (st =? 500)%Z then 8 else 4
       | BRedirect _ => if r_clears (ao_resp o) then (if is_nil (r_revoked (ao_resp o)) then 32 else 16) else 64
       end
+  | SConc o => if existsb (fun b => snd b) (co_bodies o) then 2048 else 4096
   | SSig _ _ _ _ _ _ obs => if obs then 128 else 256
   | SReuse o => if ro_served o then 512 else 1024
   end.
